@@ -468,3 +468,164 @@ pub fn c18(cx: &Cx) -> i32 {
     rep.assumptions = vec!["a borrow of the place `self.f` has the field's address (language semantics)".into()];
     rep.finish("other", "static analysis: the Deref/DerefMut builder is evaluated for 0, 1, 2 and 3 fields: exactly the single-field shape is accepted; its `Target` is the field's declared type and the method body is a direct `&self.f` / `&mut self.f` borrow of the field place, not of a temporary or call result", "rule instances = (rule, role, arity, path)")
 }
+
+// =============================================================================================== C11
+/// does `t` denote the user's default expression at `prefix` (possibly through Into::<Ty>::into)?
+fn default_value_shape(inst: &Instance, t: &Tm, want_into: bool, leaf_prefix: &str, idx: &[usize], ty_ok: &dyn Fn(&str) -> bool) -> Result<(), String> {
+    let leaf_ok = |x: &Tm| -> bool {
+        match x { Tm::Path(p) => inst.leaves.get(p).map(|l| l.path.starts_with(leaf_prefix) && l.path.ends_with("value.?") && l.idx.last() == idx.last()).unwrap_or(false), _ => false }
+    };
+    if want_into {
+        match t {
+            Tm::Call { qself: None, path, args } if path.starts_with("::core::convert::Into::<") && path.ends_with(">::into") && args.len() == 1 => {
+                let ty = &path["::core::convert::Into::<".len()..path.len() - ">::into".len()];
+                if !ty_ok(ty) { return Err(format!("Into target type `{ty}` is not the type being defaulted")); }
+                if !leaf_ok(&args[0]) { return Err(format!("Into applied to {}", args[0].show())); }
+                Ok(())
+            }
+            other => Err(format!("a string-literal / path default is not converted with Into: {}", other.show())),
+        }
+    } else if leaf_ok(t) { Ok(()) } else { Err(format!("the default expression is not used as written: {}", t.show())) }
+}
+
+fn want_into(cond: &BTreeMap<String, bool>, value_prefix: &str) -> Option<bool> {
+    // value_prefix: "<...>.value.?"
+    let lit = cond.get(&format!("{value_prefix} is Lit")).copied();
+    let is_str = cond.get(&format!("{value_prefix}.Lit.lit is Str")).copied();
+    let path = cond.get(&format!("{value_prefix} is Path")).copied();
+    if lit == Some(true) && is_str == Some(true) { return Some(true); }
+    if path == Some(true) { return Some(true); }
+    if lit.is_none() && path.is_none() { return None; }
+    Some(false)
+}
+fn opt_value(cond: &BTreeMap<String, bool>, hattrs_prefix: &str) -> (bool, Option<String>) {
+    // (attribute present, Some(value prefix) if a value is given)
+    let present = cond.iter().find(|(a, _)| a.starts_with(hattrs_prefix) && a[hattrs_prefix.len()..].starts_with(".hattrs.") && a.ends_with(".default") && !a.contains("bounds") && !a.contains("items[")).map(|(a, b)| (a.clone(), *b));
+    match present {
+        Some((a, true)) => { let v = format!("{a}.?.value"); if cond.get(&v) == Some(&true) { (true, Some(format!("{v}.?"))) } else { (true, None) } }
+        _ => (false, None),
+    }
+}
+
+fn check_default_fields(rep: &mut Report, inst: &Instance, label: &str, site: &str, cs: &str, cond: &BTreeMap<String, bool>, body: &Tm, ctor_ok: &dyn Fn(&str) -> bool, field_prefix: &str, v: Option<usize>) {
+    match ctor_parts(body) {
+        Some((path, fields)) if ctor_ok(&path) && fields.len() == 2 => {
+            let (_present, val) = opt_value(cond, field_prefix);
+            for (pos, (name, t)) in fields.iter().enumerate() {
+                let k = pos + 1;
+                let idx: Vec<usize> = match v { Some(_) => vec![k], None => vec![k] };
+                let r: Result<(), String> = match &val {
+                    Some(vp) => {
+                        let wi = want_into(cond, vp).unwrap_or(false);
+                        default_value_shape(inst, t, wi, field_prefix, &idx, &|ty| is_field_ty(inst, ty, None, k))
+                    }
+                    None => match t {
+                        Tm::Call { qself: Some((ty, tr)), path, args } if ends(tr, "default::Default") && path == "default" && args.is_empty() && is_field_ty(inst, ty, None, k) => Ok(()),
+                        other => Err(format!("a field without a given value is not `<FieldTy as Default>::default()`: {}", other.show())),
+                    },
+                };
+                let name_ok = ctor_name_ok(inst, name, pos, None) || name.as_ref().map(|n| inst.leaves.get(n).map(|l| l.idx.last() == Some(&k)).unwrap_or(false)).unwrap_or(true);
+                rep.check(r.is_ok() && name_ok, "TP-default-field", label, "field-value", &format!("field {k}: {}", r.err().unwrap_or("wrong field name".into())), site, json!({"path": cs}));
+            }
+        }
+        Some((path, fields)) if ctor_ok(&path) && fields.is_empty() => { rep.pass("TP-default-field"); }
+        _ => rep.fail("TP-default-field", label, "ctor", &format!("`default()` does not construct the expected struct / variant from its fields: {}", body.show().chars().take(200).collect::<String>()), site, json!({"path": cs})),
+    }
+}
+
+pub fn c11(cx: &Cx) -> i32 {
+    let mut rep = cx.report("C11");
+    // ---- struct
+    if let Some(r) = role(cx, "struct", "Default") {
+        let run = run(&cx.ix, r, None, CollMode::Summary, &[]);
+        let (label, site) = (run.label(), run.site());
+        rep.unanalysable(&label, &run.unsupported);
+        let mut cache = InstCache::default();
+        let mut n = 0;
+        for p in &run.paths {
+            if p.cond.iter().any(|(a, b)| *b && a.starts_with("all-empty(") && !a.contains("WhereClauseBuilder")) { continue; }
+            let cs = cond_str(&p.cond);
+            let Outcome::Ok(v) = &p.outcome else { rep.fail("DM-default-select", &label, "struct-error", "Default on a struct is refused", &site, json!({"path": cs})); continue };
+            let inst = cache.get(v, 2);
+            let Ok(inst) = &*inst else { rep.fail("TP-parse", &label, "parse", "instance does not parse", &site, json!({})); continue };
+            n += 1;
+            let ims = find_impls(&inst.file);
+            let Some(m) = ims.iter().find(|im| ends(&trait_path(im), "default::Default")).and_then(|im| method(im, "default")) else { rep.fail("TP-default-field", &label, "no-impl", "no Default impl / default()", &site, json!({})); continue };
+            let mut sem = Sem::new();
+            let body = sem.method(m);
+            let (_, tv) = opt_value(&p.cond, "");
+            let tv = if tv.is_none() { let pres = p.cond.get("hattrs.default") == Some(&true) && p.cond.get("hattrs.default.?.value") == Some(&true); if pres { Some("hattrs.default.?.value.?".to_string()) } else { None } } else { tv };
+            match tv {
+                Some(vp) => {
+                    let wi = want_into(&p.cond, &vp).unwrap_or(false);
+                    let r = default_value_shape(inst, &body, wi, "hattrs", &[], &|ty| ty == "Self");
+                    rep.check(r.is_ok(), "DM-default-select", &label, "type-level-value", &format!("a type-level #[default(expr)] does not win: {}", r.err().unwrap_or_default()), &site, json!({"path": cs}));
+                }
+                None => check_default_fields(&mut rep, inst, &label, &site, &cs, &p.cond, &body, &|pth| is_item_path(inst, pth), "fields[*]", None),
+            }
+        }
+        rep.floor("struct Default instances checked", n, 100);
+    }
+    // ---- enum: variant selection with 1 and 2 variants
+    if let Some(r) = role(cx, "enum", "Default") {
+        for nv in [1usize, 2, 3] {
+            let run = run(&cx.ix, r, None, CollMode::Unrolled(nv), &[]);
+            let (label, site) = (format!("{}[{nv} variants]", run.label()), run.site());
+            rep.unanalysable(&label, &run.unsupported);
+            let mut cache = InstCache::default();
+            let mut n_ok = 0;
+            let mut n_err = 0;
+            for p in &run.paths {
+                let cs = cond_str(&p.cond);
+                let type_value = p.cond.get("hattrs.default") == Some(&true) && p.cond.get("hattrs.default.?.value") == Some(&true);
+                let marks: Vec<usize> = (1..=nv).filter(|k| p.cond.get(&format!("variants[#{k}].hattrs.default")) == Some(&true)).collect();
+                // reference
+                let expect: Result<Option<usize>, &str> = if type_value { Ok(None) } else {
+                    match marks.len() {
+                        0 => if nv == 1 { Ok(Some(1)) } else { Err("no default variant") },
+                        1 => if p.cond.get(&format!("variants[#{}].hattrs.default.?.value", marks[0])) == Some(&true) { Err("value on a variant mark") } else { Ok(Some(marks[0])) },
+                        _ => Err("several default variants"),
+                    }
+                };
+                match (&p.outcome, &expect) {
+                    (Outcome::Err(_), Err(_)) => { n_err += 1; rep.pass("DM-default-select"); }
+                    (Outcome::Err(_), Ok(_)) => rep.fail("DM-default-select", &label, "valid-rejected", &format!("a valid choice of default variant (marks on {marks:?}, type-level value: {type_value}) is refused"), &site, json!({"path": cs})),
+                    (Outcome::Ok(_), Err(why)) => rep.fail("DM-default-select", &label, "invalid-accepted", &format!("an enum with {why} (marks on {marks:?}) is accepted"), &site, json!({"path": cs})),
+                    (Outcome::Ok(v), Ok(chosen)) => {
+                        n_ok += 1;
+                        let inst = cache.get(v, 2);
+                        let Ok(inst) = &*inst else { rep.fail("TP-parse", &label, "parse", "instance does not parse", &site, json!({})); continue };
+                        let ims = find_impls(&inst.file);
+                        let Some(m) = ims.iter().find(|im| ends(&trait_path(im), "default::Default")).and_then(|im| method(im, "default")) else { rep.fail("TP-default-field", &label, "no-impl", "no Default impl / default()", &site, json!({})); continue };
+                        let mut sem = Sem::new();
+                        let body = sem.method(m);
+                        match chosen {
+                            None => {
+                                let wi = want_into(&p.cond, "hattrs.default.?.value.?").unwrap_or(false);
+                                let r = default_value_shape(inst, &body, wi, "hattrs", &[], &|ty| ty == "Self");
+                                rep.check(r.is_ok(), "DM-default-select", &label, "type-level-value", &format!("a type-level #[default(expr)] does not win: {}", r.err().unwrap_or_default()), &site, json!({"path": cs}));
+                            }
+                            Some(k) => {
+                                let k = *k;
+                                let vok = |pth: &str| -> bool {
+                                    let mut segs = pth.rsplitn(2, "::");
+                                    let last = segs.next().unwrap_or("");
+                                    let first = segs.next().unwrap_or("");
+                                    is_item_path(inst, first) && inst.leaves.get(last).map(|l| l.path.starts_with(&format!("variants[#{k}].")) && l.path.contains("ident")).unwrap_or(false)
+                                };
+                                check_default_fields(&mut rep, inst, &label, &site, &cs, &p.cond, &body, &vok, &format!("variants[#{k}].fields[*]"), None);
+                                rep.pass("DM-default-select");
+                            }
+                        }
+                    }
+                    _ => rep.fail("unanalysable", &label, "outcome", "path neither Ok nor Err", &site, json!({"path": cs})),
+                }
+            }
+            rep.analysed.insert(format!("enum Default [{nv} variants] paths ok/err"), json!([n_ok, n_err]));
+            rep.floor(&format!("enum Default [{nv} variants] successful paths"), n_ok, 10);
+            if nv >= 2 { rep.floor(&format!("enum Default [{nv} variants] refused paths"), n_err, 2); }
+        }
+    }
+    rep.assumptions = vec!["user default expressions are embedded as written; their evaluation is not part of the analysis".into(), "`_` as the value means no value (decided at attribute parse time, outside the builder)".into()];
+    rep.finish("other", "static analysis: the Default builders are evaluated symbolically; struct: a type-level value wins, otherwise each field is its own given expression (through Into::<FieldTy> exactly for string literals and paths) or <FieldTy as Default>::default(); enum (1, 2 and 3 unrolled variants, all mark combinations): exactly one mark (without value) or the only variant is chosen, otherwise a derive_ex error", "rule instances = (rule, role, path, field)")
+}
